@@ -89,7 +89,7 @@ class Library:
             return False, None
         if tag == 'RangeIncl':
             s, e, done = it
-            if type(s) is not int or type(e) is not int:
+            if type(s) is not int or type(e) is not int or type(done) is not int:
                 raise Unsupported('range with symbolic bounds')
             if done or s > e:
                 return False, None
@@ -177,6 +177,8 @@ class Library:
             return False, None
         if tag == 'RangeIncl':
             s, e, done = it
+            if type(s) is not int or type(e) is not int or type(done) is not int:
+                raise Unsupported('range with symbolic bounds')
             if done or s > e:
                 return False, None
             if s < e:
